@@ -8,6 +8,7 @@ use egverif::{with_area_primitive, with_image, with_primitive, with_styled};
 use embedded_graphics::image::{Image, ImageDrawable};
 use embedded_graphics::pixelcolor::Rgb565;
 use embedded_graphics::prelude::*;
+use embedded_graphics::primitives::Rectangle;
 use serde::{Deserialize, Serialize};
 
 type C = Rgb565;
@@ -206,6 +207,21 @@ where
         obs.fail("draw(translate(d))==shift(draw,d)", format!("image: {}", map_diff(&b.map, &want)));
     }
     let bb = image.bounding_box();
+    // the same relation on targets whose bounding box is a window cutting through the moved image (over its
+    // top-left and over its bottom-right part): what arrives inside the window is the shifted image
+    if !bb.is_zero_sized() {
+        let mb = moved.bounding_box();
+        let half = Point::new((mb.size.width / 2) as i32 + 1, (mb.size.height / 2) as i32 + 1);
+        for win in [Rectangle::new(mb.top_left - half, mb.size), Rectangle::new(mb.top_left + half - Point::new(1, 1), mb.size)] {
+            let mut w = RecD::<I::Color>::with_box(win);
+            moved.draw(&mut w).unwrap();
+            let inside = |m: &Map<I::Color>| -> Map<I::Color> { m.iter().filter(|(k, _)| win.contains(Point::new(k.0, k.1))).map(|(k, v)| (*k, *v)).collect() };
+            obs.class("image-through-a-target-window");
+            if inside(&w.map) != inside(&want) {
+                obs.fail("draw(translate(d))==shift(draw,d)-inside-a-target-window", format!("image, window {:?}: {}", rt(&win), map_diff(&inside(&w.map), &inside(&want))));
+            }
+        }
+    }
     let mut m = image;
     m.translate_mut(d);
     let mut c = RecD::<I::Color>::new();
@@ -357,7 +373,7 @@ fn main() {
         assumptions: &["bounded to the listed catalogue and offsets (objects straddle the origin so the offsets move them across both axes)"],
         parts: |_| vec![PartSpec::new("shapes", "verif"), PartSpec::new("triangles", "verif"), PartSpec::new("polylines", "verif"), PartSpec::new("images-text", "verif"), PartSpec::new("dotted", "verif"), PartSpec::new("angles-fixed-point", "verif_fp")],
         run_part,
-        required_classes: |_| vec!["rect", "circle", "ellipse", "rrect", "triangle", "line", "arc", "sector", "polyline", "thick-triangle-or-polyline", "moved-across-y-axis", "moved-across-x-axis", "points-compared", "contains-compared", "text", "image", "dotted-rectangle"],
+        required_classes: |_| vec!["rect", "circle", "ellipse", "rrect", "triangle", "line", "arc", "sector", "polyline", "thick-triangle-or-polyline", "moved-across-y-axis", "moved-across-x-axis", "points-compared", "contains-compared", "text", "image", "image-through-a-target-window", "dotted-rectangle"],
         crash_is_verdict: false,
     })
 }
